@@ -95,6 +95,7 @@ options_add_chunk(obj_list_t *obj_list, int n_objs, int32 *chunk_lengths, int ch
     if (op_tbl->nelems > 0) {
         /* go through the supplied list of names */
         for (j = 0; j < n_objs; j++) {
+            found = 0;
             /* linear table search */
             for (i = 0; i < op_tbl->nelems; i++) {
                 /*already on the table */
@@ -175,6 +176,7 @@ options_add_comp(obj_list_t *obj_list, int n_objs, comp_info_t comp, options_tab
     if (op_tbl->nelems > 0) {
         /* go through the supplied list of names */
         for (j = 0; j < n_objs; j++) {
+            found = 0;
             /* linear table search */
             for (i = 0; i < op_tbl->nelems; i++) {
                 /*already on the table */
